@@ -55,7 +55,7 @@ T = 100.0                      # total time of the closed-form families (s)
 FACTOR = 100.0                 # "within 100 x the user tolerance"
 REL_TRANSFER = 1e-6            # C02's tolerance for the transfer relation (relative to the element's inventory)
 
-INTEGRATORS = ["rk1", "rk2", "rk3", "rk6", "cv2s100", "cv5s100", "cv2s1000", "cv5s1000", "rk3d4", "rk1d25", "rk2d4", "rk6d25", "rk3d0.01"]   # rkNdM = -runge_kutta N with -step_divide M
+INTEGRATORS = ["rk1", "rk2", "rk3", "rk6", "cv2s100", "cv5s100", "cv2s1000", "cv5s1000", "cv5s10", "cv5s20", "rk3d4", "rk1d25", "rk2d4", "rk6d25", "rk3d0.01"]   # rkNdM = -runge_kutta N with -step_divide M
 REF_INTEG = "rk6"
 REF_BSM = 500
 BATCH_DIVS = ["1", "2", "7", "L"]
@@ -72,7 +72,9 @@ def integ_label(integ):
             o, d = integ[2:].split("d")
             return "rk%s-step_divide%s1" % (o, ">" if float(d) > 1 else "<")
         return "rk%s" % integ[2:]
-    return "cvode-order%s" % integ[2]
+    steps = int(integ.split("s")[1])
+    # a step budget far below what the interval needs sends the integration through the restart loop of run_reactions
+    return "cvode-order%s%s" % (integ[2], "-restarts(cvode_steps<=20)" if steps <= 20 else "")
 
 
 def integ_text(integ, bsm):
@@ -461,7 +463,7 @@ def run_case(case):
 
 
 # ------------------------------------------------------------------------------------------------ lattice
-QUICK_INTEGRATORS = ["rk1", "rk2", "rk3", "rk6", "cv5s100", "cv2s100", "rk3d4", "rk1d25", "rk3d0.01"]
+QUICK_INTEGRATORS = ["rk1", "rk2", "rk3", "rk6", "cv5s100", "cv2s100", "cv5s10", "cv5s20", "rk3d4", "rk1d25", "rk3d0.01"]
 AUTONOMOUS = ["zero", "first", "two", "chain", "approach"]
 
 
